@@ -96,8 +96,10 @@ def migration(storage, order):
     return {2: vm.Migration1x1x0To1x1x1, 3: vm.Migration1x1x1To1x2x0, 4: vm.Migration1x2x0To1x4x0}[order](storage)
 
 
-def run_steps(docs, steps, version='4.2.1'):
-    """run the real migrations on the client double; -> (failed ids per step, final documents, storage handle)"""
+def run_steps(docs, steps, version='4.2.1', via_version=None):
+    """run the real migrations on the client double; -> (failed ids per step, final documents, storage handle).
+    via_version = n: the steps are requested by number through Migrator(MongoMigrationSet), the recorded version
+    being n at the start (the collection's layout); None: the migration objects are called directly."""
     h = storelib.make_backend('mongo', version)
     coll = h.extra['client']['vakt_db']['vakt_policies']
     for d in docs:
@@ -112,11 +114,20 @@ def run_steps(docs, steps, version='4.2.1'):
     lg.addHandler(cap)
     old_level = lg.level
     lg.setLevel(logging.DEBUG)
+    ms = None
+    if via_version is not None:
+        import vakt.storage.mongo as vm
+        from vakt.storage.migration import Migrator
+        ms = vm.MongoMigrationSet(h.storage)
+        ms.save_applied_number(via_version)
     try:
         for s in steps:
             cap.records = []
-            m = migration(h.storage, int(s[-1]))
-            getattr(m, s[:-1])()
+            if ms is not None:
+                getattr(Migrator(ms), s[:-1])(int(s[-1]))
+            else:
+                m = migration(h.storage, int(s[-1]))
+                getattr(m, s[:-1])()
             ids = []
             for r in cap.records:
                 msg = r.getMessage() if isinstance(r.msg, str) else ''
@@ -213,7 +224,8 @@ class DocStream(Stream):
                 steps = steps[:steps.index('up4')]
                 if not steps:
                     continue
-            yield {'layout': layout, 'docs': docs, 'steps': steps, 'version': rng.choice(['4.0.9', '4.2.1'])}
+            yield {'layout': layout, 'docs': docs, 'steps': steps, 'version': rng.choice(['4.0.9', '4.2.1']),
+                   'via': rng.random() < 0.5}
 
     def emit(self, c):
         docs = []
@@ -224,7 +236,8 @@ class DocStream(Stream):
             e_list(docs, '(list (pstr * val))'), e_list([STEP_COQ[s] for s in c['steps']], 'mstep'))
 
     def impl(self, c):
-        failed, docs, h = run_steps(c['docs'], c['steps'], c['version'])
+        failed, docs, h = run_steps(c['docs'], c['steps'], c['version'],
+                                    ORDER[c['layout']] if c.get('via') else None)
         h.close()
         return (' | '.join('failed=[' + ','.join(s_val(u) for u in f) + ']' for f in failed) + ' || ' +
                 ' ;; '.join(s_val(sort_keys(doc_value(d))) for d in docs))
@@ -350,7 +363,7 @@ ASSUME = ['real MongoDB cursor / replace semantics are not exhibited; the semant
 
 def main(argv):
     return run_check('C19', [DocStream(), MeaningStream()], argv, trusted_base=TRUSTED, assumptions=ASSUME,
-                     translated=('pin_mongo',))
+                     translated=('migration', 'mongo', 'pin_mongo', 'pin_rules', 'pin_util'))
 
 
 if __name__ == '__main__':
